@@ -304,7 +304,7 @@ def _pool(workers):
 def run_batch(pid, tier, base_seed, n_runs, workers, n_fixed, keep=6, chunk_timeout=None):
     if chunk_timeout is None:
         # backstop only (a hang in C code or in the harness): generous, scaled with the batch
-        chunk_timeout = 1800 + (8 * 3600 if tier == "thorough" else 0) + n_runs // 20
+        chunk_timeout = 5400 + (8 * 3600 if tier == "thorough" else 0) + n_runs // 20
     indices = [-(i + 1) for i in range(n_fixed)] + list(range(n_runs))
     keep_specs = set(range(min(keep, n_runs)))
     # contiguous blocks, many more blocks than workers for balance; result order is by index
